@@ -264,12 +264,12 @@ Section OopProofs.
     cbn [fold_left]. destruct (oop_step_ok st o OK) as [A K]. rewrite <- A. now apply IH.
   Qed.
 
-  (* reading as documented: the write is finished first, the data are the abstraction *)
-  Theorem oop_get_doc_correct st n : oop_ok st ->
-    snd (oop_get_doc chunk st n) = firstn n (oop_abs st) /\
-    oop_abs (fst (oop_get_doc chunk st n)) = oop_abs st /\ oop_ok (fst (oop_get_doc chunk st n)).
+  (* reading: the write is finished first, the data are the abstraction *)
+  Theorem oop_get_correct st n : oop_ok st ->
+    snd (oop_get chunk st n) = firstn n (oop_abs st) /\
+    oop_abs (fst (oop_get chunk st n)) = oop_abs st /\ oop_ok (fst (oop_get chunk st n)).
   Proof.
-    intros OK. unfold oop_get_doc. cbn [fst snd]. destruct (oop_flush_ok st OK) as [A K].
+    intros OK. unfold oop_get. cbn [fst snd]. destruct (oop_flush_ok st OK) as [A K].
     destruct OK as [I E]. destruct (oop_finish_abs st I) as [F1 F2].
     split; [now rewrite F1|]. split; [exact A | exact K].
   Qed.
@@ -398,14 +398,13 @@ Lemma phase_out_is_shifted_write {A} (zero : A) a shift p d :
 Proof. reflexivity. Qed.
 
 (* ------------------------------------------------------------ MPLEX *)
-(* equal sample rates: the code does what inverting the read formula dictates *)
-Lemma mplex_equal_from {A} (dflt : A) spf cnt val : forall (old new all : list A) i,
-  0 < spf -> length old = length new -> skipn i all = new ->
-  mplex_code_from dflt i spf spf cnt val old all (length old) = mplex_spec_from i spf spf cnt val old new.
+(* the code does what inverting the read formula dictates, for every pair of sample rates *)
+Lemma mplex_code_spec_from {A} (dflt : A) spf1 spf2 cnt val : forall (old new all : list A) i,
+  length old = length new -> skipn i all = new ->
+  mplex_code_from dflt i spf1 spf2 cnt val old all (length old) = mplex_spec_from i spf1 spf2 cnt val old new.
 Proof.
-  induction old as [|o ro IH]; intros new all i Hs L HS; [destruct new; reflexivity|].
+  induction old as [|o ro IH]; intros new all i L HS; [destruct new; reflexivity|].
   destruct new as [|n rn]; [discriminate|]. cbn [mplex_code_from mplex_spec_from length].
-  rewrite Nat.div_mul by lia.
   assert (Hi : i <= length all).
   { destruct (Nat.le_gt_cases i (length all)); auto. rewrite skipn_all2 in HS by lia. discriminate. }
   assert (N : nth i all dflt = n).
@@ -416,32 +415,19 @@ Proof.
   rewrite E, HS. reflexivity.
 Qed.
 
-Theorem mplex_equal_rates {A} (dflt : A) spf cnt val (old new : list A) :
-  0 < spf -> length old = length new -> mplex_code dflt spf spf cnt val old new = mplex_spec spf spf cnt val old new.
-Proof. intros. unfold mplex_code, mplex_spec. now apply mplex_equal_from. Qed.
+Theorem mplex_code_is_spec {A} (dflt : A) spf1 spf2 cnt val (old new : list A) :
+  length old = length new -> mplex_code dflt spf1 spf2 cnt val old new = mplex_spec spf1 spf2 cnt val old new.
+Proof. intros. unfold mplex_code, mplex_spec. now apply mplex_code_spec_from. Qed.
 
-Definition mplex_statement : Prop :=
-  forall (spf1 spf2 : nat) (cnt : list Z) (val : Z) (old new : list Z),
-    0 < spf1 -> 0 < spf2 -> length old = length new ->
-    mplex_code 0%Z spf1 spf2 cnt val old new = mplex_spec spf1 spf2 cnt val old new.
-
-Theorem mplex_refuted : ~ mplex_statement.
+(* exactly the samples whose index value equals the count value change *)
+Lemma mplex_spec_nth_from {A} (dflt : A) spf1 spf2 cnt val : forall (old new : list A) i k,
+  length old = length new -> k < length old ->
+  nth k (mplex_spec_from i spf1 spf2 cnt val old new) dflt =
+  if (nth ((i + k) * spf2 / spf1) cnt (val + 1) =? val)%Z then nth k new dflt else nth k old dflt.
 Proof.
-  intros H. specialize (H 2 1 [1; 0]%Z 1%Z [1; 2; 3; 4]%Z [17; 18; 19; 20]%Z).
-  vm_compute in H. specialize (H (le_S _ _ (le_n _)) (le_n _) eq_refl). discriminate.
-Qed.
-
-(* ------------------------------------------------------------ reading with a pending out-of-place write *)
-Definition oop_get_statement : Prop :=
-  forall (zero : sample) (chunk : nat) (st : oop) (n : nat), 1 <= chunk -> oop_ok st ->
-    oop_abs (fst (oop_get_code chunk st n)) = oop_abs st.
-
-Theorem oop_get_refuted : ~ oop_get_statement.
-Proof.
-  intros H.
-  (* old file 1 2 3, pending write of 9 at 1 (temporary file 1 9, read side at 2) *)
-  specialize (H [0%Z] 4 (mkOop [[1%Z]; [2%Z]; [3%Z]] true true 2 (Some [[1%Z]; [9%Z]])) 9 (le_S _ _ (le_S _ _ (le_S _ _ (le_n _))))).
-  assert (OK : oop_ok (mkOop [[1%Z]; [2%Z]; [3%Z]] true true 2 (Some [[1%Z]; [9%Z]]))).
-  { split; [split; cbn; [reflexivity | discriminate] | discriminate]. }
-  specialize (H OK). vm_compute in H. discriminate.
+  induction old as [|o ro IH]; intros new i k L K; [cbn in K; lia|].
+  destruct new as [|n rn]; [discriminate|]. cbn [mplex_spec_from].
+  destruct k.
+  - rewrite Nat.add_0_r. cbn [nth]. destruct (_ =? _)%Z; reflexivity.
+  - cbn [nth]. rewrite IH by (cbn in *; lia). replace (S i + k) with (i + S k) by lia. reflexivity.
 Qed.
